@@ -289,8 +289,12 @@ def main():
     extra_ev = getattr(mod, "extra_evidence", None)
     if extra_ev:
         ev["coverage"].update(extra_ev(rows))
-    os.makedirs(os.path.join(VERIF, "evidence"), exist_ok=True)
-    with open(os.path.join(VERIF, "evidence", "%s.json" % prop), "w") as f:
+    # evidence/ is only written for runs against /repo itself; runs against a scratch copy (VERIF_REPO=…,
+    # used for seeded changes and mutation tests) go to build/evidence_scratch/
+    evdir = os.path.join(VERIF, "evidence") if os.path.realpath(common.REPO) == "/repo" \
+        else os.path.join(VERIF, "build", "evidence_scratch")
+    os.makedirs(evdir, exist_ok=True)
+    with open(os.path.join(evdir, "%s.json" % prop), "w") as f:
         json.dump(ev, f, indent=1, default=str)
     print("%s %s: %d ops, %d mismatches, %d oracle failures (%d known), %d/%d obligations, %.1fs" %
           (prop, tier, len(rows), len(mismatches), len(failures), len(failures) - len(new_fail),
